@@ -23,6 +23,54 @@ def sample(cases, n, seed):
     return [cases[i] for i in idx]
 
 
+def pool_post(prefix, cap_quick, cap_thorough):
+    def post(cases, tier, seed):
+        grid = [c for c in cases if str(c.get("case", "")).startswith("G-")]
+        pool = [c for c in cases if not str(c.get("case", "")).startswith("G-")]
+        pool = sample(pool, cap_quick if tier == "quick" else cap_thorough, seed)
+        out = []
+        for i, c in enumerate(grid + pool):
+            d = dict(c)
+            d["case"] = "%s-%d" % (prefix, i + 1)
+            out.append(d)
+        return out
+    return post
+
+
+def corpus_cases(tier, seed):
+    """real-world JSX-free JavaScript already on this image (the npm CLI bundled with node); used only if present"""
+    import glob
+    import os
+    roots = sorted(glob.glob(os.path.expanduser("~/.nvm/versions/node/*/lib/node_modules/npm")))
+    if not roots:
+        return []
+    files = sorted(glob.glob(os.path.join(roots[-1], "**", "*.js"), recursive=True))
+    files = [f for f in files if os.path.getsize(f) < 60000]
+    files = sample(files, 250 if tier == "quick" else 2500, seed)
+    out = []
+    opts = dict(transformOn=False, optimize=True, mergeProps=True, enableObjectSlots=True, resolveType=False, patterns=[], pragma="")
+    for i, f in enumerate(files):
+        try:
+            src = open(f, encoding="utf-8").read()
+        except Exception:
+            continue
+        out.append(dict(case="K-%d" % i, kind="corpus", file=os.path.relpath(f, roots[-1]), opts=opts, lang="jsx", _src=src))
+    return out
+
+
+def c09_post(cases, tier, seed):
+    base = pool_post("C09", 5000, 60000)(cases, tier, seed)
+    extra = corpus_cases(tier, seed)
+    for i, c in enumerate(extra):
+        c["case"] = "C09-K%d" % i
+    return base + extra
+
+
+POOL = [dict(module="MC_C01"), dict(module="MC_C03"), dict(module="MC_C04"), dict(module="MC_C05"),
+        dict(module="MC_C13", tiers=("thorough",)), dict(module="MC_C02"), dict(module="MC_C06", heap="10g"),
+        dict(module="MC_C11", tiers=("thorough",))]
+
+
 def c06_post(cases, tier, seed):
     out = []
     for i, c in enumerate(cases):
@@ -151,6 +199,36 @@ PROPS = {
         assumptions=["when prefix/suffix write a binding the statement references, only the denotation (not equality with the "
                      "stand-alone run) is demanded, with the slot content left open",
                      "pragma annotations are module-wide by C15 and are not distractors"],
+    ),
+    "C07": dict(
+        mc=[dict(module="MC_C07")] + POOL, post=pool_post("C07", 6000, 80000), judge="Judge_C07", want=["basic"], node=False,
+        rule="the grid of legal-but-unusual forms of spec/mc/MC_C07.tla (element/fragment as attribute value, namespaced and "
+             "member tags, this-member tags, value-less directives, array-form directives with holes/spreads/empty arrays, "
+             "non-identifier modifier strings, pragma comments with trailing words / other @jsx* tags / no name, ...) under "
+             "every option set, plus a VERIF_SEED sample of the pooled modules of every other check; non-trivial = parsed and "
+             "contains JSX",
+        exhaustive=dict(quick=False, thorough=False),
+        assumptions=["'no JSX of any kind' is decided on the AST the next pass receives (Expr::JSXMember etc. count), "
+                     "re-parsing on the printed text with JSX disabled"],
+    ),
+    "C08": dict(
+        mc=[dict(module="MC_C07")] + POOL, post=pool_post("C08", 4000, 60000), judge="Judge_C08", want=["det"], node=False,
+        rule="adversarial modules (every directive name x every JSX attribute-value kind on element and component, deep nesting, "
+             "the unusual-forms grid) under the option sets, plus a sample of the pooled modules; each is run twice in one "
+             "process and once more in a fresh process; panics are caught, aborts and timeouts of the driver process are data",
+        exhaustive=dict(quick=False, thorough=False),
+        assumptions=["'does not loop' is observed as 'returns within 20 s' (median < 1 ms)",
+                     "8 MB stack for the transform thread; deep nesting is bounded by the cfg (Depths)"],
+    ),
+    "C09": dict(
+        mc=[dict(module="MC_C07")] + POOL, post=c09_post, judge="Judge_C09", want=["frame", "idem"], node=False,
+        rule="pooled generated modules (JSX embedded in assignments, functions, arrows, classes, blocks, default parameters; "
+             "the unusual-forms grid) — for each: ordered embedding of the fingerprints of every maximal JSX-free input "
+             "statement/expression into the fingerprints of the output, unchanged-ness of JSX-free modules against the same "
+             "pipeline without the visitor, and a second pass over the printed output; plus a VERIF_SEED sample of the real-world "
+             "JSX-free JavaScript on the image (the npm CLI's own sources), which must come back unchanged with nothing added",
+        exhaustive=dict(quick=False, thorough=False),
+        assumptions=["fingerprints are span-insensitive prints of the raw visitor output (before hygiene)"],
     ),
     "C02": dict(
         mc=[dict(module="MC_C02")], judge="Judge_C02", want=["js"],
